@@ -142,6 +142,15 @@ theorem mem_timesOf (ds : Dataset) (l : Int) (t : Nat) : t ∈ timesOf ds l ↔ 
     simp only [List.any_eq_true, decide_eq_true_eq]
     exact ⟨r, hr, hl⟩
 
+theorem wfB_iff (ds : Dataset) : wfB ds = true ↔ ds.WF := by
+  unfold wfB
+  simp only [Bool.and_eq_true, Bool.or_eq_true, beq_iff_eq, List.all_eq_true]
+  exact ⟨fun ⟨h1, h2⟩ => ⟨h1, h2⟩, fun h => ⟨h.ndim, h.cen⟩⟩
+
+theorem sortedB_iff (ds : Dataset) : sortedB ds = true ↔ ds.Sorted := by
+  unfold sortedB Dataset.Sorted
+  simp only [List.all_eq_true, decide_eq_true_eq]
+
 theorem consistentB_iff (ds : Dataset) : consistentB ds = true ↔ Consistent ds := by
   unfold consistentB
   simp only [Bool.and_eq_true, List.all_eq_true, decide_eq_true_eq, Bool.not_eq_eq_eq_not, Bool.not_true,
